@@ -14,6 +14,44 @@ Open Scope Q_scope.
 
 (* ================= Part 1 ================= *)
 
+(* ---------- order facts, min / max of lists ---------- *)
+Lemma Qltb_proper_l a a' b : a == a' -> Qltb a b = Qltb a' b.
+Proof.
+  intro E. destruct (Qltb a b) eqn:E1, (Qltb a' b) eqn:E2; try reflexivity.
+  - apply Qltb_lt in E1. apply Qltb_false in E2. lra.
+  - apply Qltb_false in E1. apply Qltb_lt in E2. lra.
+Qed.
+
+Lemma Qltb_proper_r a b b' : b == b' -> Qltb a b = Qltb a b'.
+Proof.
+  intro E. destruct (Qltb a b) eqn:E1, (Qltb a b') eqn:E2; try reflexivity.
+  - apply Qltb_lt in E1. apply Qltb_false in E2. lra.
+  - apply Qltb_false in E1. apply Qltb_lt in E2. lra.
+Qed.
+
+Lemma Qltb_irrefl a : Qltb a a = false.
+Proof. apply Qltb_false. lra. Qed.
+
+Lemma qmin_from_le m l : qmin_from m l <= m /\ forall x, In x l -> qmin_from m l <= x.
+Proof.
+  revert m. induction l as [|y r IH]; intro m; simpl.
+  - split; [lra | contradiction].
+  - destruct (Qltb y m) eqn:E.
+    + apply Qltb_lt in E. destruct (IH y) as [A B]. split; [lra|].
+      intros x [<-|Hx]; auto.
+    + apply Qltb_false in E. destruct (IH m) as [A B]. split; [exact A|].
+      intros x [<-|Hx]; [lra|auto].
+Qed.
+
+Lemma qmin_from_in m l : qmin_from m l = m \/ In (qmin_from m l) l.
+Proof.
+  revert m. induction l as [|y r IH]; intro m; simpl; [now left|].
+  destruct (Qltb y m).
+  - destruct (IH y) as [A|A]; [right; left; now rewrite A | right; right; exact A].
+  - destruct (IH m) as [A|A]; [now left | right; right; exact A].
+Qed.
+
+
 Lemma mapM_ok_map {A B} (f : A -> res B) (g : A -> B) l :
   (forall x, In x l -> f x = Ok (g x)) -> mapM f l = Ok (map g l).
 Proof.
@@ -167,3 +205,621 @@ Qed.
 
 Lemma normalize_nil nobjs st mn mx : normalize nobjs st [] mn mx = Ok (None, st).
 Proof. reflexivity. Qed.
+
+Lemma qmax_from_ge m l : m <= qmax_from m l /\ forall x, In x l -> x <= qmax_from m l.
+Proof.
+  revert m. induction l as [|y r IH]; intro m; simpl.
+  - split; [lra | contradiction].
+  - destruct (Qltb m y) eqn:E.
+    + apply Qltb_lt in E. destruct (IH y) as [A B]. split; [lra|].
+      intros x [<-|Hx]; auto.
+    + apply Qltb_false in E. destruct (IH m) as [A B]. split; [exact A|].
+      intros x [<-|Hx]; [lra|auto].
+Qed.
+
+Lemma qmax_from_in m l : qmax_from m l = m \/ In (qmax_from m l) l.
+Proof.
+  revert m. induction l as [|y r IH]; intro m; simpl; [now left|].
+  destruct (Qltb m y).
+  - destruct (IH y) as [A|A]; [right; left; now rewrite A | right; right; exact A].
+  - destruct (IH m) as [A|A]; [now left | right; right; exact A].
+Qed.
+
+Lemma lmin_le l x : In x l -> lmin l <= x.
+Proof.
+  destruct l as [|a r]; [contradiction|]. simpl. destruct (qmin_from_le a r) as [A B].
+  intros [<-|Hx]; auto.
+Qed.
+Lemma lmin_in l : l <> [] -> In (lmin l) l.
+Proof.
+  destruct l as [|a r]; [congruence|]. intros _. simpl.
+  destruct (qmin_from_in a r) as [E|E]; [left; now rewrite E | now right].
+Qed.
+Lemma lmax_ge l x : In x l -> x <= lmax l.
+Proof.
+  destruct l as [|a r]; [contradiction|]. simpl. destruct (qmax_from_ge a r) as [A B].
+  intros [<-|Hx]; auto.
+Qed.
+Lemma lmax_in l : l <> [] -> In (lmax l) l.
+Proof.
+  destruct l as [|a r]; [congruence|]. intros _. simpl.
+  destruct (qmax_from_in a r) as [E|E]; [left; now rewrite E | now right].
+Qed.
+Lemma lmin_glb l c : l <> [] -> (forall x, In x l -> c <= x) -> c <= lmin l.
+Proof. intros Hne Hall. apply Hall. now apply lmin_in. Qed.
+Lemma lmax_lub l c : l <> [] -> (forall x, In x l -> x <= c) -> lmax l <= c.
+Proof. intros Hne Hall. apply Hall. now apply lmax_in. Qed.
+
+(* l' dominates l elementwise up to reordering: every element of l' is >= some element of l *)
+Lemma lmin_le_of l l' : l' <> [] -> (forall y, In y l' -> exists x, In x l /\ x <= y) -> lmin l <= lmin l'.
+Proof.
+  intros Hne Hall. destruct (Hall _ (lmin_in l' Hne)) as [x [Hx Hle]].
+  pose proof (lmin_le l x Hx). lra.
+Qed.
+Lemma lmax_le_of l l' : l <> [] -> (forall x, In x l -> exists y, In y l' /\ x <= y) -> lmax l <= lmax l'.
+Proof.
+  intros Hne Hall. destruct (Hall _ (lmax_in l Hne)) as [y [Hy Hle]].
+  pose proof (lmax_ge l' y Hy). lra.
+Qed.
+
+Lemma perm_nil_iff {A} (l l' : list A) : Permutation l l' -> (l = [] <-> l' = []).
+Proof.
+  intro Hp. split; intro E; subst.
+  - now apply Permutation_nil.
+  - apply Permutation_sym in Hp. now apply Permutation_nil.
+Qed.
+
+Lemma lmin_perm l l' : Permutation l l' -> lmin l == lmin l'.
+Proof.
+  intro Hp. destruct l as [|a r].
+  - apply Permutation_nil in Hp. subst. reflexivity.
+  - assert (Hne' : l' <> []) by (intro E; subst; apply Permutation_sym in Hp; apply Permutation_nil in Hp; discriminate).
+    apply Qle_antisym.
+    + apply lmin_le_of; [exact Hne'|]. intros y Hy. exists y. split; [|lra].
+      apply Permutation_in with l'; [now apply Permutation_sym | exact Hy].
+    + apply lmin_le_of; [discriminate|]. intros y Hy. exists y. split; [|lra].
+      now apply Permutation_in with (a :: r).
+Qed.
+Lemma lmax_perm l l' : Permutation l l' -> lmax l == lmax l'.
+Proof.
+  intro Hp. destruct l as [|a r].
+  - apply Permutation_nil in Hp. subst. reflexivity.
+  - assert (Hne' : l' <> []) by (intro E; subst; apply Permutation_sym in Hp; apply Permutation_nil in Hp; discriminate).
+    apply Qle_antisym.
+    + apply lmax_le_of; [discriminate|]. intros y Hy. exists y. split; [|lra].
+      now apply Permutation_in with (a :: r).
+    + apply lmax_le_of; [exact Hne'|]. intros y Hy. exists y. split; [|lra].
+      apply Permutation_in with l'; [now apply Permutation_sym | exact Hy].
+Qed.
+
+(* elementwise comparison of two lists of the same length *)
+Lemma Forall2_in_l {A B} (R : A -> B -> Prop) l l' x : Forall2 R l l' -> In x l -> exists y, In y l' /\ R x y.
+Proof.
+  induction 1 as [|a b r r' Hab Hrr IH]; [contradiction|].
+  intros [<-|Hx]; [exists b; split; [now left | exact Hab]|].
+  destruct (IH Hx) as [y [Hy Rxy]]. exists y. split; [now right | exact Rxy].
+Qed.
+Lemma Forall2_in_r {A B} (R : A -> B -> Prop) l l' y : Forall2 R l l' -> In y l' -> exists x, In x l /\ R x y.
+Proof.
+  induction 1 as [|a b r r' Hab Hrr IH]; [contradiction|].
+  intros [<-|Hy]; [exists a; split; [now left | exact Hab]|].
+  destruct (IH Hy) as [x [Hx Rxy]]. exists x. split; [now right | exact Rxy].
+Qed.
+Lemma Forall2_nil_iff {A B} (R : A -> B -> Prop) l l' : Forall2 R l l' -> (l = [] <-> l' = []).
+Proof. destruct 1; split; congruence. Qed.
+
+Lemma lmin_mono l l' : Forall2 Qle l l' -> lmin l <= lmin l'.
+Proof.
+  intro HF. destruct l' as [|b r'].
+  - inversion HF. subst. simpl. lra.
+  - apply lmin_le_of; [discriminate|]. intros y Hy. destruct (Forall2_in_r _ _ _ _ HF Hy) as [x [Hx Hle]]. eauto.
+Qed.
+Lemma lmax_mono l l' : Forall2 Qle l l' -> lmax l <= lmax l'.
+Proof.
+  intro HF. destruct l as [|a r].
+  - inversion HF. subst. simpl. lra.
+  - apply lmax_le_of; [discriminate|]. intros x Hx. destruct (Forall2_in_l _ _ _ _ HF Hx) as [y [Hy Hle]]. eauto.
+Qed.
+
+Lemma Forall2_Qeq_le l l' : Forall2 Qeq l l' -> Forall2 Qle l l' /\ Forall2 Qle l' l.
+Proof. induction 1 as [|a b r r' Hab _ [IH1 IH2]]; split; constructor; auto; lra. Qed.
+
+Lemma lmin_veq l l' : Forall2 Qeq l l' -> lmin l == lmin l'.
+Proof. intro HF. destruct (Forall2_Qeq_le _ _ HF). apply Qle_antisym; now apply lmin_mono. Qed.
+Lemma lmax_veq l l' : Forall2 Qeq l l' -> lmax l == lmax l'.
+Proof. intro HF. destruct (Forall2_Qeq_le _ _ HF). apply Qle_antisym; now apply lmax_mono. Qed.
+
+Lemma Forall2_map {A B C D} (R : C -> D -> Prop) (f : A -> C) (g : B -> D) (P : A -> B -> Prop) l l' :
+  Forall2 P l l' -> (forall a b, P a b -> R (f a) (g b)) -> Forall2 R (map f l) (map g l').
+Proof. induction 1; simpl; constructor; auto. Qed.
+
+Lemma Forall2_same {A} (R : A -> A -> Prop) l : (forall x, In x l -> R x x) -> Forall2 R l l.
+Proof. induction l as [|a r IH]; intro H; constructor; [apply H; now left | apply IH; intros; apply H; now right]. Qed.
+
+(* ================= Part 2: the indicators ================= *)
+
+Lemma zip2_as_map' {A B C} (f : A -> B -> C) da db : forall n a b,
+  length a = n -> length b = n ->
+  zip2 f a b = map (fun i => f (nth i a da) (nth i b db)) (seq 0 n).
+Proof.
+  induction n as [|n IH]; intros a b Ha Hb.
+  - destruct a; [reflexivity | discriminate].
+  - destruct a as [|x a]; [discriminate|]. destruct b as [|y b]; [discriminate|].
+    simpl. f_equal. rewrite <- seq_shift, map_map. apply IH; simpl in *; lia.
+Qed.
+
+(* ---------- the model's computations are the textbook functions ---------- *)
+Lemma qminl_ok l : l <> [] -> qminl l = Ok (lmin l).
+Proof. destruct l; [congruence | reflexivity]. Qed.
+Lemma qmaxl_ok l : l <> [] -> qmaxl l = Ok (lmax l).
+Proof. destruct l; [congruence | reflexivity]. Qed.
+
+Lemma sqdist_ok : forall x y, length x = length y -> sqdist x y = Ok (sqd x y).
+Proof.
+  induction x as [|a x IH]; intros [|b y] Hl; try discriminate; [reflexivity|].
+  simpl in Hl. simpl. rewrite IH by lia. reflexivity.
+Qed.
+Lemma l1dist_ok : forall x y, length x = length y -> l1dist x y = Ok (l1d x y).
+Proof.
+  induction x as [|a x IH]; intros [|b y] Hl; try discriminate; [reflexivity|].
+  simpl in Hl. simpl. rewrite IH by lia. reflexivity.
+Qed.
+
+Lemma eps_inner_ok nobjs dirs n2 n1 : (1 <= nobjs)%nat ->
+  length dirs = nobjs -> length n2 = nobjs -> length n1 = nobjs ->
+  eps_inner nobjs dirs n2 n1 = Ok (lmax (dev dirs n1 n2)).
+Proof.
+  intros H1 Hd H2 Hn1. unfold eps_inner, dev.
+  rewrite (zip3_as_map adj_diff false 0 0 nobjs dirs n2 n1 Hd H2 Hn1).
+  rewrite (mapM_ok_map _ (fun k => adj_diff (nth k dirs false) (nth k n2 0) (nth k n1 0))).
+  - cbn [bind]. apply qmaxl_ok. destruct nobjs; [lia | simpl; discriminate].
+  - intros k Hk. apply in_seq in Hk.
+    rewrite (nth_res_ok dirs k false) by lia. rewrite (nth_res_ok n2 k 0) by lia. rewrite (nth_res_ok n1 k 0) by lia.
+    reflexivity.
+Qed.
+
+(* ---------- the constructor ---------- *)
+Definition normed (c : ind_state) (s : isol) : list Q := normv (i_min c) (i_max c) (s_objs s).
+
+Lemma mapM_nonempty {A B} (f : A -> res B) l r : mapM f l = Ok r -> l <> [] -> r <> [].
+Proof.
+  destruct l as [|a t]; [congruence|]. simpl. destruct (f a); simpl; [|discriminate].
+  destruct (mapM f t); simpl; [|discriminate]. intros E _. inversion E. discriminate.
+Qed.
+
+Lemma ind_make_ok nobjs st ref c st' : (1 <= nobjs)%nat ->
+  ind_make nobjs st ref = Ok (c, st') -> (forall s, In s (feasible ref) -> length (s_objs s) = nobjs) ->
+  i_ref c = feasible ref /\ st' = writes (normed c) st (feasible ref) /\ feasible ref <> [] /\
+  length (i_min c) = nobjs /\ length (i_max c) = nobjs /\ empty_range nobjs (i_min c) (i_max c) = Ok false.
+Proof.
+  intros H1. unfold ind_make, normalize. destruct ref as [|r0 rr]; [discriminate|].
+  set (feas := feasible (r0 :: rr)).
+  destruct (mapM (fun i => do c0 <- column feas i; qminl c0) (seq 0 nobjs)) as [mins|] eqn:Emin;
+    cbn [bind]; [|discriminate].
+  destruct (mapM (fun i => do c0 <- column feas i; qmaxl c0) (seq 0 nobjs)) as [maxs|] eqn:Emax;
+    cbn [bind]; [|discriminate].
+  destruct (empty_range nobjs mins maxs) as [e|] eqn:Ee; cbn [bind]; [|discriminate].
+  destruct e; [discriminate|].
+  intros H Hlen.
+  assert (Lmin : length mins = nobjs) by (apply mapM_length in Emin; now rewrite seq_length in Emin).
+  assert (Lmax : length maxs = nobjs) by (apply mapM_length in Emax; now rewrite seq_length in Emax).
+  rewrite (write_normalized_ok nobjs mins maxs feas st Hlen Lmin Lmax) in H. cbn [bind] in H.
+  injection H as Ec Est. subst c st'. simpl. unfold normed. simpl.
+  repeat split; auto.
+  (* at least one feasible member: the minimum of column 0 exists *)
+  intro Efe. destruct nobjs as [|n]; [lia|]. simpl in Emin. fold feas in Efe. rewrite Efe in Emin. simpl in Emin. discriminate.
+Qed.
+
+(* after the constructor and calculate's normalize, EVERY feasible object of the reference
+   set and of the approximation set (shared objects included) carries its own normalised
+   vector *)
+Lemma writes_app N st l1 l2 : writes N (writes N st l1) l2 = writes N st (l1 ++ l2).
+Proof. unfold writes. now rewrite fold_left_app. Qed.
+
+Lemma store_both N nobjs st Rf Sf x : wf_set nobjs (Rf ++ Sf) -> In x (Rf ++ Sf) ->
+  store_get (writes N (writes N st Rf) Sf) (s_sid x) = Ok (N x).
+Proof. intros Hw Hx. rewrite writes_app. now apply (writes_get N nobjs). Qed.
+
+Lemma normed_length c nobjs s : length (i_min c) = nobjs -> length (i_max c) = nobjs ->
+  length (s_objs s) = nobjs -> length (normed c s) = nobjs.
+Proof. intros. unfold normed. now apply normv_length. Qed.
+
+(* hypotheses shared by the theorems: the constructor accepted the reference set, and the
+   listed objects are well formed *)
+Record accepted (nobjs : nat) (ref set : list isol) (c : ind_state) (st0 : store) : Prop := {
+  acc_nobjs : (1 <= nobjs)%nat;
+  acc_make : ind_make nobjs [] ref = Ok (c, st0);
+  acc_wf : wf_set nobjs (feasible ref ++ feasible set)
+}.
+
+Lemma accepted_facts nobjs ref set c st0 : accepted nobjs ref set c st0 ->
+  i_ref c = feasible ref /\ st0 = writes (normed c) [] (feasible ref) /\ feasible ref <> [] /\
+  length (i_min c) = nobjs /\ length (i_max c) = nobjs /\ empty_range nobjs (i_min c) (i_max c) = Ok false /\
+  (forall s, In s (feasible ref ++ feasible set) -> length (normed c s) = nobjs).
+Proof.
+  intros [H1 Hm [Hlen Hfun]].
+  destruct (ind_make_ok nobjs [] ref c st0 H1 Hm) as [A [B [C [D [E F]]]]].
+  { intros s Hs. apply Hlen. apply in_or_app. now left. }
+  repeat split; auto. intros s Hs. apply normed_length; auto.
+Qed.
+
+(* calculate's normalize on a non-empty feasible list *)
+Lemma calc_normalize nobjs ref set c st0 : accepted nobjs ref set c st0 -> feasible set <> [] ->
+  normalize nobjs st0 (feasible set) (Some (i_min c)) (Some (i_max c)) =
+  Ok (Some (i_min c, i_max c), writes (normed c) st0 (feasible set)).
+Proof.
+  intros Hacc Hne. destruct (accepted_facts _ _ _ _ _ Hacc) as [A [B [C [D [E [F G]]]]]].
+  unfold normed. rewrite <- (feasible_idem set) at 2.
+  apply normalize_explicit_ok; auto.
+  rewrite feasible_idem. intros s Hs. apply (proj1 (acc_wf _ _ _ _ _ Hacc)). apply in_or_app. now right.
+Qed.
+
+Lemma calc_store nobjs ref set c st0 x : accepted nobjs ref set c st0 -> In x (feasible ref ++ feasible set) ->
+  store_get (writes (normed c) st0 (feasible set)) (s_sid x) = Ok (normed c x).
+Proof.
+  intros Hacc Hx. destruct (accepted_facts _ _ _ _ _ Hacc) as [A [B _]]. rewrite B.
+  apply (store_both (normed c) nobjs); [exact (acc_wf _ _ _ _ _ Hacc) | exact Hx].
+Qed.
+
+(* ---------- epsilon indicator = textbook ---------- *)
+Theorem eps_unfold nobjs dirs ref set c st0 : accepted nobjs ref set c st0 -> length dirs = nobjs ->
+  eps_indicator nobjs dirs ref set =
+  Ok (match feasible set with
+      | [] => XInf
+      | _ => XFin (eps_textbook dirs (map (normed c) (feasible ref)) (map (normed c) (feasible set)))
+      end).
+Proof.
+  intros Hacc Hd. destruct (accepted_facts _ _ _ _ _ Hacc) as [A [B [C [D [E [F G]]]]]].
+  unfold eps_indicator. rewrite (acc_make _ _ _ _ _ Hacc). cbn [bind fst snd]. unfold eps_calculate.
+  destruct (feasible set) as [|s0 r0] eqn:Ef; [reflexivity|].
+  rewrite <- Ef in *. assert (Hne : feasible set <> []) by (rewrite Ef; discriminate).
+  rewrite (calc_normalize _ _ _ _ _ Hacc Hne). cbn [bind snd]. rewrite A.
+  rewrite (mapM_ok_map _ (fun s1 => lmin (map (fun s2 => lmax (dev dirs (normed c s1) (normed c s2))) (feasible set)))).
+  - cbn [bind]. rewrite qmaxl_ok by (intro Em; apply map_eq_nil in Em; contradiction).
+    cbn [bind fst]. unfold eps_textbook. rewrite map_map. do 3 apply f_equal.
+    apply map_ext. intro x. now rewrite map_map.
+  - intros s1 Hs1. cbv beta.
+    rewrite (calc_store nobjs ref set c st0 s1 Hacc) by (apply in_or_app; now left). cbn [bind].
+    rewrite (mapM_ok_map _ (fun s2 => lmax (dev dirs (normed c s1) (normed c s2)))).
+    + cbn [bind]. apply qminl_ok. intro Em. apply map_eq_nil in Em. contradiction.
+    + intros s2 Hs2. cbv beta.
+      rewrite (calc_store nobjs ref set c st0 s2 Hacc) by (apply in_or_app; now right). cbn [bind].
+      apply eps_inner_ok; auto; try (apply G; apply in_or_app; auto). exact (acc_nobjs _ _ _ _ _ Hacc).
+Qed.
+
+(* ---------- GD / IGD = textbook ingredients ---------- *)
+Lemma nearest_sq_ok st (N : isol -> list Q) s set n : set <> [] ->
+  store_get st (s_sid s) = Ok (N s) -> (forall t, In t set -> store_get st (s_sid t) = Ok (N t)) ->
+  length (N s) = n -> (forall t, In t set -> length (N t) = n) ->
+  nearest_sq st s set = Ok (XFin (nsq (N s) (map N set))).
+Proof.
+  intros Hne Hs Ht Ls Lt. unfold nearest_sq. destruct set as [|t0 r0] eqn:Eset; [congruence|]. rewrite <- Eset in *.
+  unfold sq_row. rewrite (mapM_ok_map _ (fun t => sqd (N s) (N t))).
+  - cbn [bind]. rewrite qminl_ok by (intro Em; apply map_eq_nil in Em; contradiction). cbn [bind].
+    unfold nsq. now rewrite map_map.
+  - intros t Hin. unfold norm_sqdist. rewrite Hs, (Ht t Hin). cbn [bind]. apply sqdist_ok. rewrite Ls, (Lt t Hin). reflexivity.
+Qed.
+
+Lemma all_fin_fin l : all_fin (map XFin l) = Some l.
+Proof. induction l as [|a r IH]; [reflexivity|]. simpl. now rewrite IH. Qed.
+
+Lemma all_fin_inf {A} (l : list A) : l <> [] -> all_fin (map (fun _ => XInf) l) = None.
+Proof. destruct l; [congruence | reflexivity]. Qed.
+
+Theorem gd_unfold nobjs ref set c st0 : accepted nobjs ref set c st0 ->
+  gd_indicator nobjs ref set =
+  Ok (match feasible set with
+      | [] => IInf
+      | _ => ITerms (gd_terms_textbook (map (normed c) (feasible ref)) (map (normed c) (feasible set)))
+                    (length (feasible set))
+      end).
+Proof.
+  intros Hacc. destruct (accepted_facts _ _ _ _ _ Hacc) as [A [B [C [D [E [F G]]]]]].
+  unfold gd_indicator. rewrite (acc_make _ _ _ _ _ Hacc). cbn [bind fst snd]. unfold gd_calculate.
+  destruct (feasible set) as [|s0 r0] eqn:Ef; [reflexivity|].
+  rewrite <- Ef in *. assert (Hne : feasible set <> []) by (rewrite Ef; discriminate).
+  rewrite (calc_normalize _ _ _ _ _ Hacc Hne). cbn [bind snd]. rewrite A.
+  rewrite (mapM_ok_map _ (fun s => XFin (nsq (normed c s) (map (normed c) (feasible ref))))).
+  - cbn [bind fst]. rewrite <- (map_map (fun s => nsq (normed c s) (map (normed c) (feasible ref))) XFin).
+    rewrite all_fin_fin. unfold gd_terms_textbook. now rewrite map_map.
+  - intros s Hs. apply (nearest_sq_ok _ (normed c) s (feasible ref) nobjs); auto.
+    + apply (calc_store nobjs ref set c st0 s Hacc). apply in_or_app. now right.
+    + intros t Ht. apply (calc_store nobjs ref set c st0 t Hacc). apply in_or_app. now left.
+    + apply G. apply in_or_app. now right.
+    + intros t Ht. apply G. apply in_or_app. now left.
+Qed.
+
+Theorem igd_unfold nobjs ref set c st0 : accepted nobjs ref set c st0 ->
+  igd_indicator nobjs ref set =
+  Ok (match feasible set with
+      | [] => IInf
+      | _ => ITerms (gd_terms_textbook (map (normed c) (feasible set)) (map (normed c) (feasible ref)))
+                    (length (feasible ref))
+      end).
+Proof.
+  intros Hacc. destruct (accepted_facts _ _ _ _ _ Hacc) as [A [B [C [D [E [F G]]]]]].
+  unfold igd_indicator. rewrite (acc_make _ _ _ _ _ Hacc). cbn [bind fst snd]. unfold igd_calculate.
+  destruct (feasible set) as [|s0 r0] eqn:Ef.
+  - rewrite normalize_nil. cbn [bind snd]. rewrite A.
+    rewrite (mapM_ok_map _ (fun _ => XInf)) by reflexivity. cbn [bind fst].
+    now rewrite (all_fin_inf (feasible ref) C).
+  - rewrite <- Ef in *. assert (Hne : feasible set <> []) by (rewrite Ef; discriminate).
+    rewrite (calc_normalize _ _ _ _ _ Hacc Hne). cbn [bind snd]. rewrite A.
+    rewrite (mapM_ok_map _ (fun s => XFin (nsq (normed c s) (map (normed c) (feasible set))))).
+    + cbn [bind fst]. rewrite <- (map_map (fun s => nsq (normed c s) (map (normed c) (feasible set))) XFin).
+      rewrite all_fin_fin. unfold gd_terms_textbook. now rewrite map_map.
+    + intros s Hs. apply (nearest_sq_ok _ (normed c) s (feasible set) nobjs); auto.
+      * apply (calc_store nobjs ref set c st0 s Hacc). apply in_or_app. now left.
+      * intros t Ht. apply (calc_store nobjs ref set c st0 t Hacc). apply in_or_app. now right.
+      * apply G. apply in_or_app. now left.
+      * intros t Ht. apply G. apply in_or_app. now right.
+Qed.
+
+(* ---------- spacing = textbook ---------- *)
+Theorem spacing_unfold set q : spacing_calculate set = Ok q ->
+  (forall s, In s (feasible set) -> length (s_objs s) = length (s_objs (hd s (feasible set)))) ->
+  q == if Nat.ltb (length (feasible set)) 2 then 0 else spacing_sq_textbook (spacing_ds_textbook (feasible set)).
+Proof.
+  unfold spacing_calculate. intros Hq Hlen. destruct (Nat.ltb (length (feasible set)) 2) eqn:E2.
+  - inversion Hq. reflexivity.
+  - destruct (spacing_distances (feasible set)) as [ds|] eqn:Eds; cbn [bind] in Hq; [|discriminate].
+    inversion Hq. clear Hq. subst q.
+    assert (Hds : ds = spacing_ds_textbook (feasible set)).
+    { unfold spacing_distances in Eds. unfold spacing_ds_textbook.
+      set (feas := feasible set) in *.
+      assert (forall l, incl l feas -> forall r,
+                mapM (fun s1 => do row <- mapM (fun s2 => l1dist (s_objs s1) (s_objs s2))
+                                         (filter (fun s2 => negb (Nat.eqb (s_sid s1) (s_sid s2))) feas); qminl row) l = Ok r ->
+                r = map (fun s1 => lmin (map (fun s2 => l1d (s_objs s1) (s_objs s2))
+                                             (filter (fun s2 => negb (Nat.eqb (s_sid s1) (s_sid s2))) feas))) l) as Hgen.
+      { induction l as [|s1 l IH]; intros Hi r Hr; simpl in Hr.
+        - now inversion Hr.
+        - rewrite (mapM_ok_map _ (fun s2 => l1d (s_objs s1) (s_objs s2))) in Hr.
+          + cbn [bind] in Hr.
+            destruct (map (fun s2 => l1d (s_objs s1) (s_objs s2)) (filter (fun s2 => negb (Nat.eqb (s_sid s1) (s_sid s2))) feas)) as [|x0 r0] eqn:Erow;
+              [simpl in Hr; discriminate|].
+            cbn [qminl bind] in Hr.
+            destruct (mapM _ l) as [rr|] eqn:Err; cbn [bind] in Hr; [|discriminate].
+            inversion Hr. simpl. rewrite Erow. f_equal. apply IH; [intros x Hx; apply Hi; now right | reflexivity].
+          + intros s2 Hs2. apply filter_In in Hs2. apply l1dist_ok.
+            rewrite (Hlen s1 (Hi s1 (or_introl eq_refl))), (Hlen s2 (proj1 Hs2)).
+            destruct feas; [destruct (proj1 Hs2) | reflexivity]. }
+      apply Hgen; [apply incl_refl | exact Eds]. }
+    rewrite Hds. unfold spacing_sq_textbook, spacing_ds_textbook. rewrite !map_length. reflexivity.
+Qed.
+
+(* ================= properties of the textbook functions ================= *)
+
+(* ---------- epsilon ---------- *)
+Lemma dev_as_map n dirs r s : length dirs = n -> length r = n -> length s = n ->
+  dev dirs r s = map (fun k => adj_diff (nth k dirs false) (nth k s 0) (nth k r 0)) (seq 0 n).
+Proof. intros Hd Hr Hs. unfold dev. now apply zip3_as_map. Qed.
+
+Lemma dev_self_zero n dirs r x : length dirs = n -> length r = n -> In x (dev dirs r r) -> x == 0.
+Proof.
+  intros Hd Hr Hx. rewrite (dev_as_map n) in Hx by auto. apply in_map_iff in Hx. destruct Hx as [k [<- _]].
+  unfold adj_diff. destruct (nth k dirs false); ring.
+Qed.
+
+Lemma dev_nonempty n dirs r s : (1 <= n)%nat -> length dirs = n -> length r = n -> length s = n -> dev dirs r s <> [].
+Proof.
+  intros H1 Hd Hr Hs. rewrite (dev_as_map n) by auto. destruct n; [lia | simpl; discriminate].
+Qed.
+
+(* the adjusted first coordinate: smaller = better *)
+Definition adj0 (dirs : list bool) (v : list Q) : Q := (if nth 0 dirs false then (-1 # 1) else 1) * nth 0 v 0.
+
+Lemma dev_first n dirs r s : (1 <= n)%nat -> length dirs = n -> length r = n -> length s = n ->
+  In (adj0 dirs s - adj0 dirs r) (map (fun x => x) (dev dirs r s)) \/
+  exists x, In x (dev dirs r s) /\ x == adj0 dirs s - adj0 dirs r.
+Proof.
+  intros H1 Hd Hr Hs. right. rewrite (dev_as_map n) by auto.
+  exists (adj_diff (nth 0 dirs false) (nth 0 s 0) (nth 0 r 0)). split.
+  - apply in_map_iff. exists 0%nat. split; [reflexivity | apply in_seq; lia].
+  - unfold adj_diff, adj0. destruct (nth 0 dirs false); ring.
+Qed.
+
+Lemma argmin_exists {A} (f : A -> Q) (V : list A) : V <> [] -> exists r0, In r0 V /\ forall s, In s V -> f r0 <= f s.
+Proof.
+  intro Hne. assert (Hm : map f V <> []) by (intro E; apply map_eq_nil in E; contradiction).
+  pose proof (lmin_in _ Hm) as Hin. apply in_map_iff in Hin. destruct Hin as [r0 [E Hr0]].
+  exists r0. split; [exact Hr0|]. intros s Hs. rewrite E. apply lmin_le. now apply in_map.
+Qed.
+
+(* eps of a set of vectors against itself is 0 *)
+Theorem eps_textbook_self n dirs V : (1 <= n)%nat -> length dirs = n -> V <> [] ->
+  (forall v, In v V -> length v = n) -> eps_textbook dirs V V == 0.
+Proof.
+  intros H1 Hd Hne Hl. unfold eps_textbook.
+  set (M := fun r s => lmax (dev dirs r s)).
+  assert (HM0 : forall r, In r V -> M r r == 0).
+  { intros r Hr. unfold M. apply (dev_self_zero n dirs r); auto. apply lmax_in. apply (dev_nonempty n); auto. }
+  assert (Houter : map (fun r => lmin (map (fun s => M r s) V)) V <> []) by (intro E; apply map_eq_nil in E; contradiction).
+  apply Qle_antisym.
+  - apply lmax_lub; [exact Houter|]. intros x Hx. apply in_map_iff in Hx. destruct Hx as [r [<- Hr]].
+    pose proof (lmin_le (map (fun s => M r s) V) (M r r) ltac:(apply in_map_iff; exists r; auto)) as Hle.
+    rewrite (HM0 r Hr) in Hle. exact Hle.
+  - destruct (argmin_exists (adj0 dirs) V Hne) as [r0 [Hr0 Hmin]].
+    assert (H0 : 0 <= lmin (map (fun s => M r0 s) V)).
+    { apply lmin_glb; [intro E; apply map_eq_nil in E; contradiction|].
+      intros x Hx. apply in_map_iff in Hx. destruct Hx as [s [<- Hs]]. unfold M.
+      destruct (dev_first n dirs r0 s H1 Hd (Hl r0 Hr0) (Hl s Hs)) as [Hin|[y [Hy Ey]]].
+      - rewrite map_id in Hin. pose proof (lmax_ge _ _ Hin). specialize (Hmin s Hs). lra.
+      - pose proof (lmax_ge _ _ Hy). specialize (Hmin s Hs). lra. }
+    pose proof (lmax_ge (map (fun r => lmin (map (fun s => M r s) V)) V) (lmin (map (fun s => M r0 s) V))
+                  ltac:(apply in_map_iff; exists r0; auto)). lra.
+Qed.
+
+(* s' is no better than s in every objective (declared directions; true = maximise) *)
+Definition vworse (dirs : list bool) (s s' : list Q) : Prop :=
+  length s' = length s /\
+  forall k, (k < length dirs)%nat -> if nth k dirs false then nth k s' 0 <= nth k s 0 else nth k s 0 <= nth k s' 0.
+
+Lemma dev_mono n dirs r s s' : length dirs = n -> length r = n -> length s = n -> vworse dirs s s' ->
+  Forall2 Qle (dev dirs r s) (dev dirs r s').
+Proof.
+  intros Hd Hr Hs [Hl Hw]. rewrite (dev_as_map n dirs r s), (dev_as_map n dirs r s') by (auto; congruence).
+  apply Forall2_map with (P := eq); [apply Forall2_same; reflexivity|].
+  intros k ? <-. destruct (Nat.lt_ge_cases k n) as [L|G].
+  - specialize (Hw k ltac:(lia)). unfold adj_diff. destruct (nth k dirs false); lra.
+  - rewrite !(nth_overflow s), !(nth_overflow s'), !(nth_overflow r) by lia. lra.
+Qed.
+
+(* making members worse never decreases eps *)
+Theorem eps_textbook_monotone n dirs R S S' : length dirs = n ->
+  (forall r, In r R -> length r = n) -> (forall s, In s S -> length s = n) ->
+  Forall2 (vworse dirs) S S' -> eps_textbook dirs R S <= eps_textbook dirs R S'.
+Proof.
+  intros Hd HR HS HW. unfold eps_textbook. apply lmax_mono.
+  apply Forall2_map with (P := fun a b => a = b /\ In a R).
+  - clear HW. induction R as [|r R' IH]; constructor; [split; [reflexivity | now left]|].
+    assert (IH' := IH (fun r0 Hr0 => HR r0 (or_intror Hr0))).
+    clear -IH'. induction IH'; constructor; [destruct H; split; [auto | now right] | auto].
+  - intros r ? [<- Hr]. apply lmin_mono.
+    assert (HS' : forall s, In s S -> length s = n) by exact HS.
+    clear HS. revert HS'. induction HW as [|s s' T T' Hss HT IH]; intro HS'; simpl; constructor.
+    + apply lmax_mono. apply (dev_mono n); auto. apply HS'. now left.
+    + apply IH. intros x Hx. apply HS'. now right.
+Qed.
+
+Lemma Permutation_filter {A} (p : A -> bool) a b : Permutation a b -> Permutation (filter p a) (filter p b).
+Proof.
+  intro Hab. induction Hab; simpl.
+  - constructor.
+  - destruct (p x); [now constructor | assumption].
+  - destruct (p x), (p y); [apply perm_swap | apply Permutation_refl | apply Permutation_refl | apply Permutation_refl].
+  - now apply Permutation_trans with (filter p l').
+Qed.
+
+(* order independence *)
+Theorem eps_textbook_perm dirs R R' S S' : Permutation R R' -> Permutation S S' ->
+  eps_textbook dirs R S == eps_textbook dirs R' S'.
+Proof.
+  intros HR HS. unfold eps_textbook.
+  rewrite (lmax_perm _ _ (Permutation_map (fun r => lmin (map (fun s => lmax (dev dirs r s)) S)) HR)).
+  apply lmax_veq. apply Forall2_map with (P := eq); [apply Forall2_same; reflexivity|].
+  intros r ? <-. apply lmin_perm. now apply Permutation_map.
+Qed.
+
+(* ---------- GD / IGD terms ---------- *)
+Lemma qsum_nonneg l : (forall x, In x l -> 0 <= x) -> 0 <= qsum l.
+Proof.
+  induction l as [|a r IH]; intro H; simpl; [lra|].
+  pose proof (H a (or_introl eq_refl)). pose proof (IH (fun x Hx => H x (or_intror Hx))). lra.
+Qed.
+
+Lemma qsum_zero l : (forall x, In x l -> x == 0) -> qsum l == 0.
+Proof.
+  induction l as [|a r IH]; intro H; simpl; [reflexivity|].
+  rewrite (H a (or_introl eq_refl)), (IH (fun x Hx => H x (or_intror Hx))). ring.
+Qed.
+
+Lemma sqd_nonneg : forall x y, 0 <= sqd x y.
+Proof.
+  unfold sqd. induction x as [|a x IH]; intros [|b y]; simpl; try lra.
+  specialize (IH y). assert (0 <= (a - b) * (a - b)) by nra. lra.
+Qed.
+
+Lemma sqd_self : forall x, sqd x x == 0.
+Proof. unfold sqd. induction x as [|a x IH]; simpl; [reflexivity|]. rewrite IH. ring. Qed.
+
+Lemma nsq_nonneg x Y : 0 <= nsq x Y.
+Proof.
+  unfold nsq. destruct Y as [|y Y']; [simpl; lra|].
+  apply lmin_glb; [simpl; discriminate|]. intros z Hz. apply in_map_iff in Hz. destruct Hz as [y0 [<- _]]. apply sqd_nonneg.
+Qed.
+
+Lemma nsq_member x Y : In x Y -> nsq x Y == 0.
+Proof.
+  intro Hx. apply Qle_antisym; [|apply nsq_nonneg].
+  unfold nsq. pose proof (lmin_le (map (sqd x) Y) (sqd x x) ltac:(now apply in_map)) as H. rewrite sqd_self in H. exact H.
+Qed.
+
+(* every squared nearest distance is >= 0, hence so is their sum *)
+Theorem gd_terms_nonneg R S : (forall t, In t (gd_terms_textbook R S) -> 0 <= t) /\ 0 <= qsum (gd_terms_textbook R S).
+Proof.
+  assert (H : forall t, In t (gd_terms_textbook R S) -> 0 <= t).
+  { intros t Ht. unfold gd_terms_textbook in Ht. apply in_map_iff in Ht. destruct Ht as [s [<- _]]. apply nsq_nonneg. }
+  split; [exact H | now apply qsum_nonneg].
+Qed.
+
+(* a set against itself: every nearest distance is 0 *)
+Theorem gd_terms_self V : (forall t, In t (gd_terms_textbook V V) -> t == 0) /\ qsum (gd_terms_textbook V V) == 0.
+Proof.
+  assert (H : forall t, In t (gd_terms_textbook V V) -> t == 0).
+  { intros t Ht. unfold gd_terms_textbook in Ht. apply in_map_iff in Ht. destruct Ht as [s [<- Hs]]. now apply nsq_member. }
+  split; [exact H | now apply qsum_zero].
+Qed.
+
+(* same multiset up to == *)
+Definition peq (l l' : list Q) : Prop := exists m, Permutation l m /\ Forall2 Qeq m l'.
+
+Lemma qsum_perm l l' : Permutation l l' -> qsum l == qsum l'.
+Proof. induction 1; simpl; try lra. Qed.
+Lemma qsum_veq l l' : Forall2 Qeq l l' -> qsum l == qsum l'.
+Proof. induction 1; simpl; [reflexivity|]. rewrite H, IHForall2. reflexivity. Qed.
+Lemma qsum_peq l l' : peq l l' -> qsum l == qsum l'.
+Proof. intros [m [Hp Hv]]. rewrite (qsum_perm _ _ Hp). now apply qsum_veq. Qed.
+Lemma length_peq l l' : peq l l' -> length l = length l'.
+Proof.
+  intros [m [Hp Hv]]. rewrite (Permutation_length Hp). clear Hp. induction Hv; simpl; auto.
+Qed.
+
+Lemma peq_map (h h' : Q -> Q) l l' : (forall x y, x == y -> h x == h' y) -> peq l l' -> peq (map h l) (map h' l').
+Proof.
+  intros Hh [m [Hp Hv]]. exists (map h m). split; [now apply Permutation_map|].
+  apply Forall2_map with (P := Qeq); auto.
+Qed.
+
+(* the multiset of squared nearest distances does not depend on the order of either set *)
+Theorem gd_terms_perm R R' S S' : Permutation R R' -> Permutation S S' ->
+  peq (gd_terms_textbook R S) (gd_terms_textbook R' S').
+Proof.
+  intros HR HS. unfold gd_terms_textbook. exists (map (fun s => nsq s R) S'). split; [now apply Permutation_map|].
+  apply Forall2_map with (P := eq); [apply Forall2_same; reflexivity|].
+  intros s ? <-. unfold nsq. apply lmin_perm. now apply Permutation_map.
+Qed.
+
+(* ---------- spacing ---------- *)
+Lemma Qdiv_nonneg a b : 0 <= a -> 0 <= b -> 0 <= a / b.
+Proof. intros Ha Hb. unfold Qdiv. apply Qmult_le_0_compat; [exact Ha | now apply Qinv_le_0_compat]. Qed.
+
+Lemma inject_nat_nonneg n : 0 <= inject_Z (Z.of_nat n).
+Proof. change 0 with (inject_Z 0). rewrite <- Zle_Qle. lia. Qed.
+
+Theorem spacing_sq_nonneg ds : 0 <= spacing_sq_textbook ds.
+Proof.
+  unfold spacing_sq_textbook. apply Qdiv_nonneg; [|apply inject_nat_nonneg].
+  apply qsum_nonneg. intros x Hx. apply in_map_iff in Hx. destruct Hx as [d [<- _]]. nra.
+Qed.
+
+Theorem spacing_model_nonneg set q : spacing_calculate set = Ok q -> 0 <= q.
+Proof.
+  unfold spacing_calculate. destruct (Nat.ltb (length (feasible set)) 2).
+  - intro H. inversion H. lra.
+  - destruct (spacing_distances (feasible set)) as [ds|]; cbn [bind]; [|discriminate].
+    intro H. inversion H. apply Qdiv_nonneg; [|apply inject_nat_nonneg].
+    apply qsum_nonneg. intros x Hx. apply in_map_iff in Hx. destruct Hx as [d [<- _]]. nra.
+Qed.
+
+Theorem spacing_sq_peq ds ds' : peq ds ds' -> spacing_sq_textbook ds == spacing_sq_textbook ds'.
+Proof.
+  intro Hp. unfold spacing_sq_textbook. rewrite <- (length_peq _ _ Hp).
+  set (n := length ds).
+  assert (Em : qsum ds / inject_Z (Z.of_nat n) == qsum ds' / inject_Z (Z.of_nat n)) by (now rewrite (qsum_peq _ _ Hp)).
+  assert (Es : qsum (map (fun d => (d - qsum ds / inject_Z (Z.of_nat n)) * (d - qsum ds / inject_Z (Z.of_nat n))) ds) ==
+               qsum (map (fun d => (d - qsum ds' / inject_Z (Z.of_nat n)) * (d - qsum ds' / inject_Z (Z.of_nat n))) ds')).
+  { apply qsum_peq. apply peq_map; [|exact Hp]. intros x y Exy. rewrite Exy, Em. reflexivity. }
+  rewrite Es. reflexivity.
+Qed.
+
+Theorem spacing_ds_perm feas feas' : Permutation feas feas' ->
+  peq (spacing_ds_textbook feas) (spacing_ds_textbook feas').
+Proof.
+  intro Hp. unfold spacing_ds_textbook.
+  exists (map (fun s1 => lmin (map (fun s2 => l1d (s_objs s1) (s_objs s2))
+                                   (filter (fun s2 => negb (Nat.eqb (s_sid s1) (s_sid s2))) feas))) feas').
+  split; [now apply Permutation_map|].
+  apply Forall2_map with (P := eq); [apply Forall2_same; reflexivity|].
+  intros s1 ? <-. apply lmin_perm. apply Permutation_map. now apply Permutation_filter.
+Qed.
